@@ -18,6 +18,18 @@ CHECKS = [
                   'differential Python-vs-engine and shared-vs-unshared metamorphic relation',
     ),
     dict(
+        id='C02',
+        text='Differentiable random expression DAGs (2-5 free parameters with adversarial names, interacting terms) are '
+             'differentiated through every public entry point (get_value_and_derivatives aggregated / per observation / '
+             'reduced requests / named results, create_function, create_objective_function, '
+             'BIOGEME.calculate_likelihood_and_derivatives scaled and unscaled, check_derivatives) and compared entry by '
+             'entry with forward-mode second-order jets of the reference semantics; symmetry, BHHH = sum of outer products, '
+             'aggregate = sum of per-observation outputs, name <-> index mapping are asserted. Exploration over programs x inputs.',
+        note='Trusts the reference jets (cross-checked by finite differences of the reference value, which also filters '
+             'kinks); tolerance 2e-6 relative; four engine-level defects are listed known findings and bucketed by structure.',
+        technique='property-based testing (Hypothesis): generated differentiable DAGs vs reference automatic differentiation (jets)',
+    ),
+    dict(
         id='C11',
         text='Generated search over all 21 catalogue entries x sizes x seeds and over the quantile transform on '
              '(0,1) incl. extreme tails, judged against an independently coded radical inverse, stratum counting, '
